@@ -165,7 +165,8 @@ theorem resolveIter_upper {ds : List DType} {r : DType} (h : resolveIter ds = so
     ∀ d ∈ ds, d.le r = true := resolveIter_le h
 
 /-- **The merge pattern** `dst = np.empty(n, resolve_dtype_iter(dtypes)); dst[sel_i] = part_i`
-    (reindex, shift, assignment, insertion, overlay, fill …): every stored element is the supplied
+    (reindex, shift, assignment, insertion, overlay, fill, `pivot_unstack` / `pivot_stack` with a fill
+    value — `np.array(values, dtype=resolve_dtype(src, fill))` since fix 0d932e3 …): every stored element is the supplied
     one, whenever each part holds its own values and no part is promoted lossily. -/
 theorem merge_preserves (parts : List Arr) (out : Arr) (h : mergeWrite parts = some out)
     (hwt : ∀ p ∈ parts, p.WellTyped)
